@@ -32,11 +32,13 @@ import (
 	"strconv"
 	"strings"
 	"sync"
+	"sync/atomic"
 	"time"
 
 	"github.com/anishathalye/porcupine"
 	eio "github.com/karagenc/socket.io-go/engine.io"
 	eioparser "github.com/karagenc/socket.io-go/engine.io/parser"
+	"nhooyr.io/websocket"
 
 	"sioverif/internal/rawpeer"
 	"sioverif/internal/refcodec"
@@ -976,6 +978,52 @@ func handshakeUniqueness(run *vk.Run) {
 // ---------------------------------------------------------------------------
 // Part C: requests racing Server.Close
 
+// raceServer is a real Engine.IO server behind its own loopback listener, like rig.EIOServer, plus a
+// counter of HTTP handlers that are inside Server.ServeHTTP. "No handler in flight" is the logical
+// barrier of part C: a polling handshake handler has returned (NewSocketCallback and the store are behind
+// it), a WebSocket handler returns only when its connection is no longer served. Without it the
+// emptiness of recorder and store right after Close() is vacuous for a WebSocket handshake whose OPEN is
+// written before NewSocketCallback is entered.
+type raceServer struct {
+	EIO      *eio.Server
+	HTTP     *http.Server
+	URL      string
+	inflight atomic.Int64
+	once     sync.Once
+}
+
+func newRaceServer(onSocket eio.NewSocketCallback, cfg *eio.ServerConfig) (*raceServer, error) {
+	if cfg.WebSocketAcceptOptions == nil {
+		cfg.WebSocketAcceptOptions = &websocket.AcceptOptions{CompressionMode: websocket.CompressionDisabled}
+	}
+	s := &raceServer{EIO: eio.NewServer(onSocket, cfg)}
+	if err := s.EIO.Run(); err != nil {
+		return nil, err
+	}
+	l, err := rig.ListenLoopback()
+	if err != nil {
+		return nil, err
+	}
+	mux := http.NewServeMux()
+	mux.HandleFunc("/engine.io/", func(w http.ResponseWriter, r *http.Request) {
+		s.inflight.Add(1)
+		defer s.inflight.Add(-1)
+		s.EIO.ServeHTTP(w, r)
+	})
+	s.URL = "http://" + l.Addr().String() + "/engine.io/"
+	s.HTTP = &http.Server{Handler: mux}
+	go s.HTTP.Serve(l)
+	return s, nil
+}
+
+// Close (after the verdict only: it calls Server.Close a second time).
+func (s *raceServer) Close() {
+	s.once.Do(func() {
+		s.EIO.Close()
+		s.HTTP.Close()
+	})
+}
+
 type hsRec struct {
 	I      int    `json:"i"`
 	Via    string `json:"transport"`
@@ -992,7 +1040,7 @@ type roundState struct {
 	idx        int
 	kind       string // "polling-handshakes-racing-close" | "websocket-open-then-close(...)"
 	peers      []*rawpeer.Client
-	srv        *rig.EIOServer
+	srv        *raceServer
 	tr         *tracker
 	authMs     int
 	k          int
@@ -1027,7 +1075,7 @@ func closeRaceRound(run *vk.Run, idx int, rnd *rand.Rand) *roundState {
 	if authMs > 0 {
 		cfg.Authenticator = func(w http.ResponseWriter, r *http.Request) bool { time.Sleep(authDelay); return true }
 	}
-	srv, err := rig.NewEIOServer(tr.onSocket, cfg)
+	srv, err := newRaceServer(tr.onSocket, cfg)
 	if err != nil {
 		run.Inconclusive("close race: cannot start server: " + err.Error())
 		return nil
@@ -1108,7 +1156,8 @@ func closeRaceRound(run *vk.Run, idx int, rnd *rand.Rand) *roundState {
 		}
 	}
 	// release the listener; the Engine.IO server object (and whatever it still holds) stays for the verdict.
-	// NOT rig.EIOServer.Close(): a second Server.Close() would sweep the store again and hide a leak.
+	// NOT the server's own Close(): a second Server.Close() would sweep the store again and hide a leak.
+	// (http.Server.Close closes the listener and idle connections only; no handler is interrupted.)
 	srv.HTTP.Close()
 	if t, ok := cl.Transport.(*http.Transport); ok {
 		t.CloseIdleConnections()
@@ -1124,7 +1173,7 @@ func wsThenCloseRound(run *vk.Run, idx int, rnd *rand.Rand) *roundState {
 	tr := newTracker()
 	cbMs := []int{0, 1, 3}[idx%3] // 0: the natural window (a few instructions)
 	tr.cbDelay = time.Duration(cbMs) * time.Millisecond
-	srv, err := rig.NewEIOServer(tr.onSocket, &eio.ServerConfig{PingInterval: 120 * time.Second, PingTimeout: 120 * time.Second})
+	srv, err := newRaceServer(tr.onSocket, &eio.ServerConfig{PingInterval: 120 * time.Second, PingTimeout: 120 * time.Second})
 	if err != nil {
 		run.Inconclusive("close race (ws): cannot start server: " + err.Error())
 		return nil
@@ -1183,7 +1232,8 @@ func phaseOf(h hsRec, rs *roundState) string {
 }
 
 func (rs *roundState) clean() bool {
-	return len(rs.tr.open()) == 0 && rs.srv.EIO.VerifSessionCount() == 0
+	// no handler in flight first: only then is "nothing open, nothing stored" a fact about this round's handshakes
+	return rs.srv.inflight.Load() == 0 && len(rs.tr.open()) == 0 && rs.srv.EIO.VerifSessionCount() == 0
 }
 
 func bucket(n int) string {
@@ -1266,8 +1316,9 @@ func (rs *roundState) evaluate(run *vk.Run, probeAt int64) {
 	}
 	for sid := range byHTTP {
 		if rs.tr.get(sid) == nil {
-			run.Violation(vk.Violation{Sub: "handshake-session-count", Fields: map[string]any{"what": "sid-unknown-to-callback", "race": "close"},
-				What: fmt.Sprintf("round %d: OPEN carried sid %s that NewSocketCallback never saw", rs.idx, sid), Witness: rs.witness(nil)})
+			// allowed in a race with Close: the server may refuse a handshake whose OPEN is already on the wire
+			// without ever running NewSocketCallback (the client then holds an OPEN for a session that never was)
+			run.Count("close_race_open_without_new_socket_callback", 1)
 		}
 	}
 	if len(dup) > 0 {
@@ -1277,6 +1328,9 @@ func (rs *roundState) evaluate(run *vk.Run, probeAt int64) {
 
 	// (2) counting oracle: every admitted session has been closed, the store is empty
 	left := rs.tr.open()
+	if n := rs.srv.inflight.Load(); n != 0 && len(left) == 0 && live == 0 {
+		run.Inconclusive(fmt.Sprintf("round %d (%s): %d handler(s) still in flight at the verdict although no session is open or stored", rs.idx, rs.kind, n))
+	}
 	type leakClass struct{ phase, via string }
 	leakedByPhase := map[leakClass][]string{}
 	for _, s := range left {
@@ -1442,7 +1496,8 @@ func main() {
 		"fault classes and codes from the Engine.IO v4 protocol / reference server: unsupported version 5, unknown transport (handshake only) 0, bad handshake method 2, unknown sid 1; where several coincide any of their codes is accepted",
 		"cells without any of the four fault classes (live sid with another transport / odd method, websocket handshake without upgrade headers) are checked for side-effect freedom only; a GET/POST naming a live polling session with EIO=4&transport=polling is a legitimate request and goes to a throw-away session",
 		"NewSocketCallback / OnClose invocations are recorded under one mutex; the session count is the store size (VerifSessionCount, build tag verif)",
-		"'never closed' is concluded only after Close() and every request of the round have returned plus a 15 s watchdog; heartbeat timeouts (240 s) cannot end a session within that time",
+		"'never closed' is concluded only after Close() and every request of the round have returned and no HTTP handler of the round's server is in flight (counted by a wrapper around Server.ServeHTTP), plus a 15 s watchdog; heartbeat timeouts (240 s) cannot end a session within that time",
+		"in a race with Close a client may hold an OPEN whose session the server never created (no NewSocketCallback): allowed, counted only",
 		"Server.Close is called exactly once per server before the verdict (the rig's own Close would sweep the store a second time)")
 
 	// Part A (thorough: three different cell orders per pass)
